@@ -131,6 +131,40 @@ def generate(tier, rng):
         if rng.random() < 0.1: out.append("DE Int %s" % hexs(b))
     return out
 
+def cross_check(cases, impl_out, model_out):
+    """The side conditions of the round-trip theorem (Props/C17.v C17_roundtrip_any) on the family:
+    F= the Coq predicate f12_free (Spec/SerdeAny.v) evaluated by the driver agrees with f12_hit on every SER case;
+    D= shape_ok_any and untagged_disjoint hold for every family shape;
+    H= where every hypothesis of the theorem holds, the model read the value back (the theorem, replayed) and every
+    generated value outside F12 and outside Option-in-Option satisfies the hypotheses (the theorem is not vacuous on the family)."""
+    bad = []
+    seen_d = {}
+    for line, mo in zip(cases, model_out):
+        t = line.split()
+        if t[0] != "SER": continue
+        parts = mo.split("\t")
+        aux = dict(p.split("=", 1) for p in parts[1:] if "=" in p)
+        if "F" not in aux: continue
+        d = sg.parse_expr(t[1])
+        try: v = parse_value(d, t[2])
+        except Exception: continue
+        hit = sg.f12_hit(d, v)
+        if (aux["F"] == "hit") != hit:
+            bad.append((line, "F12 class: Coq f12_free says %s, checks/serdegen.py f12_hit says %s" % (aux["F"], "hit" if hit else "free")))
+        if aux.get("D") != "1" and t[1] not in seen_d:
+            seen_d[t[1]] = 1
+            bad.append((line, "side condition shape_ok_any / untagged_disjoint does not hold for family type %s" % t[1]))
+        if aux.get("H") == "1":
+            spec = aux.get("S", "-")
+            if spec not in ("-", None) and parts[0] != spec:
+                bad.append((line, "every hypothesis of C17_roundtrip_any holds but the model does not read the value back: %s vs %s" % (parts[0], spec)))
+        elif not hit and not sg.opt_in_opt(d) and not uses_ign(d):
+            bad.append((line, "a generated value outside F12 does not satisfy the hypotheses of C17_roundtrip_any (conf_any / sval_ok)"))
+    return bad[:50]
+
+def uses_ign(d):
+    return "ign" in repr(d)
+
 def nontrivial(line, impl):
     t = line.split()
     if t[0] == "SER": return len(impl.split(";")[0]) > 2
